@@ -28,7 +28,7 @@ Lemma tie_sync_window (p : params) (epoch cur : N) :
   nu64 (fork p) -> nu64 epoch -> nu64 cur ->
   let w := window_of true p epoch cur in
   controller_syncWindow (Z.of_N (epp p)) (Z.of_N (fork p)) (Z.of_N epoch)
-                        (Z.of_N (epoch_of_slot p cur)) (Z.of_N (spe p)) (Z.of_N cur)
+                        (Z.of_N (epoch_of_slot p cur)) (Z.of_N cur) (Z.of_N (spe p))
   = (Z.of_N (w_first_epoch w), Z.of_N (w_first w), Z.of_N (w_last w)).
 Proof.
   intros Hf He Hc. cbv zeta. unfold controller_syncWindow, window_of. cbn [w_first_epoch w_first w_last].
